@@ -65,7 +65,13 @@ def build(shape, vals):
 
 
 def table_snapshot(model):
-    return {t: {k: id(v) for k, v in getattr(model, t).items()} for t in ('cells', 'formulae', 'ranges', 'defined_names')}
+    """the original model as an observer sees it: which objects its tables hold, and what every cell / formula says"""
+    snap = {t: {k: id(v) for k, v in getattr(model, t).items()} for t in ('cells', 'formulae', 'ranges', 'defined_names')}
+    snap['content'] = {a: (id(c.value) if is_sym(c.value) else repr(c.value), c.formula.formula if c.formula is not None else None,
+                           sorted(c.formula.terms) if c.formula is not None else None, id(c.formula.ast) if c.formula is not None else None,
+                           list(c.defined_names))
+                       for a, c in model.cells.items()}
+    return snap
 
 
 def extract_call(native, shape, focus, closure):
@@ -161,7 +167,7 @@ def _key(r):
 VAL = lambda: Fork([Prim('real', domain=[2.5, 0.0]), Prim('int', domain=[0, 7]), Prim('str', domain=['', 'x']), Prim('bool')])
 for _shape, (_spec, _foci) in SHAPES.items():
     for _focus, _closure in _foci:
-        UNITS.append(Unit(
+        UNITS.append(Unit(ghost=True, 
             id=f'C13/model.ModelCompiler.extract[{_shape};focus={",".join(_focus)}]', target=TARGET, fork='star',
             inputs=[('v0', VAL()), ('v1', VAL()), ('v2', VAL())],
             cases=[Case('closure under dependencies; values, formulas, names and ranges carried over; fresh objects; original model untouched; compiled once at the end',
